@@ -500,6 +500,37 @@ def eager_lazy(K, rec, evs, counters):
 
 
 # --------------------------------------------------------------------------- entry points of the pipeline
+def inline_vetoes(K, rec, evs, counters):
+    """bool inline actions of if_apply< Rule, Actions... > (vh::ia< 1 >, vh::ia< 3 >): an action returning false turns the
+    match into a local failure with the cursor back at the start of that match, whatever the rewind mode (the property's
+    last clause, for the inline form).  Needs the invocation trace."""
+    out = []
+    st = []
+    for k, n in evs:
+        if k == "B":
+            st.append({"rule": n[1], "pos": tuple(n[4:7]), "veto": False})
+        elif k == "E":
+            if not st:
+                return out
+            f = st.pop()
+            if f["veto"] and head_of(K, f["rule"]) == "if_apply":
+                counters["inline_vetoes_checked"] += 1
+                if n[2] == 1:
+                    out.append("if_apply (rule %d): an inline action returned false but the rule reports success" % f["rule"])
+                elif n[2] == 0 and tuple(n[3:6]) != f["pos"]:
+                    out.append("if_apply (rule %d): an inline action vetoed the match but the cursor is left at %s (the match started at %s)" % (f["rule"], tuple(n[3:6]), f["pos"]))
+        elif k == "I" and st:
+            b, e = n[1], n[4]
+            ok = True
+            if n[0] == 1:
+                ok = ((b * 3 + e * 5) % 3) != 0          # vh::ipred
+            elif n[0] == 3:
+                ok = ((b + e) % 2) != 0                  # vh::ipred3
+            if not ok:
+                st[-1]["veto"] = True
+    return out
+
+
 def oracle(K, rec, counters):
     if rec["res"] == "RUNAWAY":
         return []
@@ -513,6 +544,8 @@ def oracle(K, rec, counters):
     else:
         out += protocol_hooks_only(K, rec, evs, counters)
     out += sections(K, rec, evs, traced, counters)
+    if traced:
+        out += inline_vetoes(K, rec, evs, counters)
     out += reference(K, rec, counters)
     out += eager_lazy(K, rec, evs, counters)
     return out
@@ -621,6 +654,10 @@ def _c04_family(tier):
     add([N0], raw("seq< N0, apply< vh::ia< 0 >, vh::ia< 1 > >, opt< one< 'c' > > >"), "inline")
     add([N0, N1], raw("sor< if_apply< N1, vh::ia< 1 > >, if_apply< N0, vh::ia< 0 >, vh::ia< 1 > >, one< 'c' > >"), "inline", "backtrack")
     add([N1], raw("star< if_apply< seq< one< 'a' >, opt< N1 > >, vh::ia< 1 > > >"), "inline", "loop")
+    # vh::ia< 3 > vetoes every even-length match that starts at an even offset: vetoes of matches that consumed
+    add([N0, N1], raw("sor< if_apply< N1, vh::ia< 3 > >, if_apply< N0, vh::ia< 0 >, vh::ia< 3 > >, star< any > >"), "inline", "backtrack")
+    add([N1], raw("seq< opt< if_apply< seq< one< 'a' >, one< 'b' > >, vh::ia< 3 > > >, star< any > >"), "inline")
+    add([N0], raw("star< sor< if_apply< plus< one< 'a' > >, vh::ia< 3 > >, any > >"), "inline", "loop")
     add([N0], raw("seq< N0, apply0< vh::ia0< 10 >, vh::ia0< 11 > >, opt< seq< N0, apply0< vh::ia0< 12 > > > >, star< any > >"), "inline")
     add([N0], raw("seq< disable< if_apply< N0, vh::ia< 0 > > >, at< seq< N0, apply< vh::ia< 0 > >, apply0< vh::ia0< 10 > > > >, opt< N0 > >"), "inline", "switch", "lookahead")
     add([N0, N1], raw("seq< disable< seq< N0, enable< if_apply< opt< N1 >, vh::ia< 0 > > > > >, star< any > >"), "inline", "switch")
